@@ -105,6 +105,10 @@ def menu(world, build):
     # one alignment that covers the whole locus and overhangs it on both sides (long read)
     if span < 1000:
         M.append(("spanning", 0, wide.start - 30, f"{span}M", ref(wide.start - 30, span)))
+    # mismatches exactly on the first and on the last base of the RefSeq-mapped part
+    b0, b1 = min(g.chr_to_ref), max(g.chr_to_ref)
+    M.append(("firstbase", 0, b0 - 12, "30M", with_sub(b0 - 12, 30, [(b0, COMP[G[b0]])])))
+    M.append(("lastbase", 0, b1 - 17, "30M", with_sub(b1 - 17, 30, [(b1, COMP[G[b1]])])))
     if world.spec.pseudo:
         p0 = worlds.OFFS[build][1] - 1 + 140
         M.append(("pseudo_del", 0, p0, "14M2D16M", ref(p0, 14) + ref(p0 + 16, 16)))
